@@ -1,9 +1,115 @@
 import Okane.Drv.IOUtil
-/-! Driver commands for C08 (stub: replaced when the property's streams are built). -/
-namespace Okane.Drv.C08
+import Okane.Drv.DecodeSyntax
+import Okane.Model.ExprSyntax
+import Okane.Model.Eval
+import Okane.Spec.Expr
+/-!
+Driver for C08.
 
-def main (args : List String) : IO Unit := do
-  let _ := args
-  pure ()
+`drv c08 model` : line `<position> <enc expr text>` -> the model parser (`ExprSyntax.valueExpr`) on the text the
+                  position hands to `value_expr`, then the model evaluator (`evalRo` / `evalMut`) and the position's
+                  conversion (`toAmount` / `toPosting` / `toSingle` + zero-rate check):
+                  `tree=<sexp | - | partial> res=(ok ((C num/den)...)) | (err KIND..) | (parse-err)`
+`drv c08 ref`   : line `<sexp of a ValueExpr>` (the tree the IMPLEMENTATION parsed) -> the reference denotation
+                  (`Spec/Expr.lean`): `(num p/q)` | `(com (C p/q)...)` | `(err KIND)` | `(unstratified)`
+-/
+namespace Okane.Drv.C08
+open Okane Okane.ExprSyntax Okane.Spec
+
+def errName : EvalErr → String
+  | .unmatchingOperation => "UnmatchingOperation"
+  | .unmatchingCommodities => "UnmatchingCommodities"
+  | .unknownCommodity => "UnknownCommodity"
+  | .divideByZero => "DivideByZero"
+  | .numberOverflow => "NumberOverflow"
+  | .amountRequired => "AmountRequired"
+  | .postingAmountRequired => "PostingAmountRequired"
+  | .singleAmountRequired => "SingleAmountRequired"
+
+def sortPairs (xs : List (String × Rat)) : List (String × Rat) :=
+  (xs.toArray.qsort fun a b => a.1 < b.1).toList
+
+def showAmount (a : Amount String) : String :=
+  "(" ++ " ".intercalate ((sortPairs a).map fun kv => s!"({Sexp.encode kv.1} {ratStr kv.2})") ++ ")"
+
+def showErr (e : EvalErr) : String := s!"(err EvalFailure {errName e})"
+
+/-- the commodity store of the shared `eval` ledger: `commodity A` … `commodity D` -/
+def evalStore : Store := ⟨[("A", none), ("B", none), ("C", none), ("D", none)]⟩
+
+def evalPosition (pos : String) (v : VExpr) : String :=
+  match pos with
+  | "eval" =>
+    match evalRo evalStore v with
+    | .ok ev => match ev.toAmount with
+      | .ok a => s!"(ok {showAmount a})"
+      | .err e => showErr e
+      | _ => "(crash)"
+    | .err e => showErr e
+    | _ => "(crash)"
+  | "amount" | "balance" =>
+    match evalMut evalStore v with
+    | .ok (ev, _) => match ev.toPosting with
+      | .ok p => s!"(ok {showAmount p.toAmount})"
+      | .err e => showErr e
+      | _ => "(crash)"
+    | .err e => showErr e
+    | _ => "(crash)"
+  | _ =>
+    -- cost / lot: `Exchange::try_from_syntax` on a posting of `1 C`
+    match evalMut evalStore v with
+    | .ok (ev, _) => match ev.toSingle with
+      | .ok s =>
+        if s.value = 0 then "(err ZeroExchangeRate)"
+        else if s.commodity = "C" then "(err ExchangeWithAmountCommodity)"
+        else s!"(ok {showAmount [(s.commodity, s.value * 1)]})"
+      | .err e => showErr e
+      | _ => "(crash)"
+    | .err e => showErr e
+    | _ => "(crash)"
+
+def modelRec (pos : String) (text : List Char) : String :=
+  let suffix : List Char := match pos with
+    | "eval" => []
+    | "lot" => "}\n".toList
+    | _ => ['\n']
+  match parseValueExpr (text ++ suffix) with
+  | .ok v rest =>
+    if skipSpaces rest == suffix then s!"tree={(encVExpr v).toStr} res={evalPosition pos v}"
+    else if pos == "eval" then "tree=- res=(parse-err)"
+    else "tree=partial res=(partial)"
+  | .fail _ => "tree=- res=(parse-err)"
+  | .fuelOut => "tree=fuel res=(fuel)"
+
+def showRVal : RVal → String
+  | .num r => s!"(num {ratStr r})"
+  | .com ks f =>
+    let ks' := (ks.eraseDups.toArray.qsort (· < ·)).toList
+    "(com " ++ " ".intercalate (ks'.map fun k => s!"({Sexp.encode k} {ratStr (f k)})") ++ ")"
+
+def refRec (line : String) : String :=
+  match Sexp.parse line with
+  | none => "bad-case"
+  | some sx =>
+    match decVExpr sx with
+    | none => "bad-case"
+    | some v =>
+      match ofVExpr v with
+      | none => "(unstratified)"
+      | some t =>
+        match t.den (fun c => some c) with
+        | .ok r => showRVal r
+        | .err e => s!"(err {errName e})"
+        | _ => "(crash)"
+
+def main (args : List String) : IO Unit :=
+  match args with
+  | ["ref"] => forEachLine refRec
+  | _ => forEachLine fun line =>
+    match words line with
+    | [p, t] => match Sexp.decode t with
+      | some s => modelRec p s.toList
+      | none => "bad-case"
+    | _ => "bad-case"
 
 end Okane.Drv.C08
